@@ -21,7 +21,10 @@ use sozu_command_lib::{
 };
 use sozu_lib::{
     protocol::kawa_h1::parser::Method,
-    router::{Router, RouterError},
+    router::{
+        pattern_trie::{InsertResult, RemoveResult, TrieNode},
+        Router, RouterError,
+    },
 };
 use verif_harness::*;
 
@@ -185,6 +188,19 @@ fn compute_table(case: &Case) -> Vec<(Vec<u8>, bool, Vec<Vec<u8>>)> {
                 probes.insert(op.args[0].b().to_vec());
                 labels(op.args[0].b(), &mut probes);
                 probes.insert(op.args[1].b().to_vec());
+            }
+            "tins" | "trem" | "tget" | "tmut" => {
+                let k = op.args[0].b();
+                let sl: Vec<usize> = (0..k.len()).filter(|i| k[*i] == b'/').collect();
+                for (x, i) in sl.iter().enumerate() {
+                    for j in &sl[x + 1..] {
+                        let mut a = b"\\A".to_vec();
+                        a.extend_from_slice(&k[i + 1..*j]);
+                        a.extend_from_slice(b"\\z");
+                        srcs.insert(a);
+                    }
+                }
+                labels(k, &mut probes);
             }
             _ => {}
         }
@@ -491,6 +507,7 @@ fn run(case: &Case, out: &mut Out) {
     let cls = |c: &'static str| -> &'static str { if regex_seen.get() { "regex-host" } else { c } };
     let tagf = || if regex_seen.get() { "regexhost" } else { "plain" };
     let mut router = Router::new();
+    let mut trie: TrieNode<i64> = TrieNode::root();
     let mut live: Vec<Front> = vec![];
     let mut dead = false;
     for op in &case.ops {
@@ -556,6 +573,35 @@ fn run(case: &Case, out: &mut Out) {
                     }
                 }
             }
+            // direct correspondence of the trie API
+            "tins" => {
+                let r = catch_unwind(AssertUnwindSafe(|| trie.domain_insert(a[0].b().to_vec(), a[1].n() as i64)));
+                match r {
+                    Ok(InsertResult::Ok) => out.obs(&[ts("ok")]),
+                    Ok(InsertResult::Existing) => out.obs(&[ts("existing")]),
+                    Ok(InsertResult::Failed) => out.obs(&[ts("failed")]),
+                    Err(_) => {
+                        out.obs(&[ts("panic")]);
+                        out.viol("panic-config", &format!("TrieNode::insert({}) panicked", show(a[0].b())));
+                        dead = true;
+                    }
+                }
+            }
+            "trem" => match trie.domain_remove(&a[0].b().to_vec()) {
+                RemoveResult::Ok => out.obs(&[ts("ok")]),
+                RemoveResult::NotFound => out.obs(&[ts("notfound")]),
+            },
+            "tget" => match trie.domain_lookup(a[0].b(), a[1].n() == 1) {
+                Some((k, v)) => out.obs(&[ts("some"), tb(k), tn(*v)]),
+                None => out.obs(&[ts("none")]),
+            },
+            "tmut" => match trie.domain_lookup_mut(a[0].b(), a[1].n() == 1) {
+                Some((k, v)) => {
+                    out.obs(&[ts("some"), tb(k), tn(*v)]);
+                    *v += 1;
+                }
+                None => out.obs(&[ts("none")]),
+            },
             "probe" => {
                 let (h, p, m) = (a[0].b(), a[1].b(), a[2].b());
                 let got = do_lookup(&router, h, p, m);
